@@ -312,6 +312,10 @@ pub fn check_echo_response(
     if ctx["peer"].as_str() != Some(peer) {
         v.push(Violation { rule: "c09.ctx_mismatch".into(), detail: format!("{op} nonce {}: peer {} != {}", rq.nonce, ctx["peer"], peer) });
     }
+    let want_version = if h2 { "HTTP/2.0" } else { "HTTP/1.1" };
+    if ctx["version"].as_str() != Some(want_version) {
+        v.push(Violation { rule: "c09.ctx_mismatch".into(), detail: format!("{op} nonce {}: version {} != {}", rq.nonce, ctx["version"], want_version) });
+    }
     if ctx["operation_id"].as_str() != Some(op.as_str()) {
         v.push(Violation { rule: "c09.wrong_handler".into(), detail: format!("{op} nonce {}: served by operation {}", rq.nonce, ctx["operation_id"]) });
     }
